@@ -132,6 +132,13 @@ CONFIG = {
         'level_text': 'Theorems: each registry transaction is exactly one insert / remove / upsert on its own collection at the key it names (duplicates and unknown removals rejected), the ordered map obeys the exact-map laws (one entry created, exactly that entry deleted, distinct keys independent), key derivations are injective (token pairs: up to a Keccak-256 collision), single-item queries find an entry iff it exists and return the entry stored for that key, scalar queries return the stored values; for the model of cosmos-sdk query.Paginate a page is firstn limit (skipn offset l) resp. firstn limit (from_key cursor l) with the next key and total, and following next_key (key mode) or advancing the offset (offset mode) returns every entry exactly once in key order for every page size >= 1, the hypotheses (sorted, non-empty keys) being invariants of every reachable store. Tied to the Go keeper by differential execution of registry histories over colliding key pools with all queries and complete paging in both modes, forward and reverse; an independent reference (maps maintained from transaction outcomes, own Keccak) runs on the implementation trace.',
         'assumptions': ['query.Paginate is modelled from the cosmos-sdk v0.50.7 source (Lib/Paginate.v), not verified; offset + limit < 2^64 in the page theorems (the uint64 wrap is written into the model)'],
     },
+    'C20': {
+        'profiles': [('shapes', 10, 200), ('registry', 8, 100)],
+        'rules': [(r'TX:.*', 'R', r'^panic'), (r'Q:.*', 'QR', r'^panic'), (r'CODEC:.*', 'C', r'^panic'), (r'CLIADDR', 'A', r'^panic'), (r'VERIFY', 'V', r'^panic')],
+        'monitors': [M.mon_c20],
+        'level_text': 'Theorems: in every state whose four role slots are set (an invariant of every chain initialised from a genesis, proved) no transaction of any of the 25 types, with any field values (absent amounts, empty / short / long byte fields, malformed addresses, any text of the modelled alphabet) and any dependency plan, panics; the verifier never panics; the decoders are total; the CLI address parser never panics; a query panics only inside cosmos-sdk\'s Paginate for a reverse request whose cursor is the last key (refutation witness in the property file; recorded known finding). Tied to the Go code by running every entry point under recover() over every field shape varied independently in five reachable states, with nil and empty absent fields; ANY implementation panic is a violation whatever the model says.',
+        'assumptions': ['partial: panic sites inside dependencies that were not found by reading can only be found by the sampling; text outside ASCII + U+017F + U+212A is exercised on the implementation only (the model answers Unmodelled)'],
+    },
     'C10': {
         'profiles': [('roles-matrix', 324, 324), ('admin-random', 30, 600)],
         # the property speaks about submitters who do not hold the role: only those steps are compared
